@@ -171,6 +171,21 @@ func init() {
 		in.note(concString(args[0], "vrt.Note"))
 		return nil, nil
 	})
+	reg(vrtPath+"Quiesce", func(in *Interp, g *Goroutine, fn *ssa.Function, args []Value) (Value, *tailCall) {
+		// wait until every other goroutine has finished or is blocked for good
+		busy := func() bool {
+			for _, o := range in.gs {
+				if o != g && !o.done && (!o.blocked || (o.ready != nil && o.ready())) {
+					return true
+				}
+			}
+			return false
+		}
+		if busy() {
+			in.block(g, nil, "vrt.Quiesce", func() bool { return !busy() })
+		}
+		return nil, nil
+	})
 	reg(vrtPath+"Concretize", func(in *Interp, g *Goroutine, fn *ssa.Function, args []Value) (Value, *tailCall) {
 		lo, hi := in.concInt(args[1], "Concretize lo"), in.concInt(args[2], "Concretize hi")
 		return in.ci(in.concretizeInt(args[0].(*Term), lo, hi, "vrt.Concretize")), nil
